@@ -283,6 +283,34 @@ func run(s *core.Shard) {
 			s.Nontrivial(c.Split.Key())
 		}
 	}
+	for i := 0; i < 6; i++ {
+		if !s.Mine(n + 234 + i) {
+			continue
+		}
+		if !s.Begin(fmt.Sprintf("name-layers/%d", i)) {
+			continue
+		}
+		c := nameLayers(i)
+		if ok, _ := judge(s, c); ok {
+			s.Cover("carrier", c.Carrier)
+			s.Cover("focus", c.Focus)
+			s.Nontrivial(c.Split.Key())
+		}
+	}
+	for i := 0; i < 6; i++ {
+		if !s.Mine(n + 228 + i) {
+			continue
+		}
+		if !s.Begin(fmt.Sprintf("tagged-anchor/%d", i)) {
+			continue
+		}
+		c := taggedAnchor(i)
+		if ok, _ := judge(s, c); ok {
+			s.Cover("carrier", c.Carrier)
+			s.Cover("focus", c.Focus)
+			s.Nontrivial(c.Split.Key())
+		}
+	}
 	for i := 0; i < 10; i++ {
 		if !s.Mine(n + 218 + i) {
 			continue
